@@ -28,6 +28,7 @@ func init() {
 	verifRegister("verifC08CloseVsBlockedIO", verifC08CloseVsBlockedIO)
 	verifRegister("verifC08CloseVsGather", verifC08CloseVsGather)
 	verifRegister("verifC08CloseAfterRestart", verifC08CloseAfterRestart)
+	verifRegister("verifC08CloseAfterRegather", verifC08CloseAfterRegather)
 	verifRegister("verifC08CloseInCallback", verifC08CloseInCallback)
 	verifRegister("verifC08CloseConcurrent", verifC08CloseConcurrent)
 	verifRegister("verifC08CloseInBindingHandler", verifC08CloseInBindingHandler)
@@ -148,11 +149,20 @@ type verifC08Net struct {
 	// gate != nil: opening a socket is a slow step that only completes once
 	// the gate has been opened (a gathering cycle busy in the network)
 	gate chan struct{}
+	// only the first socket opening waits for the gate (the first cycle is
+	// slow, a later one is not)
+	gateFirstOnly bool
 }
 
 func (n *verifC08Net) ListenUDP(_ string, a *net.UDPAddr) (transport.UDPConn, error) {
-	if n.gate != nil {
-		<-n.gate
+	n.mu.Lock()
+	gate := n.gate
+	if n.gateFirstOnly {
+		n.gate = nil
+	}
+	n.mu.Unlock()
+	if gate != nil {
+		<-gate
 	}
 	n.mu.Lock()
 	defer n.mu.Unlock()
@@ -512,13 +522,17 @@ func verifC08CloseAfterRestart() {
 	if verifTier() == 0 || verifChoice(2) == 1 {
 		// the cycle is busy in the network until some later moment
 		verifReach("slow-network")
-		w.net.gate = make(chan struct{})
+		gate := make(chan struct{})
+		w.net.gate = gate
 		k := verifChoice(3 + 3*verifTier())
 		go func() {
-			for n := k; n > 0; n-- {
+			if k == 0 { // as late as it can: when nothing else can move any more
+				verifLetOthersRun()
+			}
+			for n := k - 1; n > 0; n-- {
 				runtime.Gosched()
 			}
-			close(w.net.gate)
+			close(gate)
 		}()
 	}
 	verifAssert(a.OnCandidate(func(Candidate) {}) == nil, "handler")
@@ -539,6 +553,47 @@ func verifC08CloseAfterRestart() {
 	w.after()
 	w.net.mu.Lock()
 	verifAssert(len(w.net.socks) == opened, "the-cancelled-cycle-opens-nothing-after-Close-returned")
+	w.net.mu.Unlock()
+	verifReach("done")
+}
+
+// Close while two gathering cycles are alive: the first was cancelled by a
+// Restart but is still busy in the network (its socket opening is gated), the
+// restarted session gathered again. The teardown has to wait for both: once
+// Close has returned neither cycle opens anything.
+func verifC08CloseAfterRegather() {
+	w := verifC08New(true)
+	a := w.a
+	gate := make(chan struct{})
+	w.net.gate, w.net.gateFirstOnly = gate, true
+	// the slow step ends after 0..1 hand-overs, or as late as it can: when
+	// nothing else in the system can move any more
+	k := verifChoice(2 + 4*verifTier())
+	go func() {
+		if k == 0 {
+			verifLetOthersRun()
+		}
+		for n := k - 1; n > 0; n-- {
+			runtime.Gosched()
+		}
+		close(gate)
+	}()
+	verifAssert(a.OnCandidate(func(Candidate) {}) == nil, "handler")
+	verifAssert(a.GatherCandidates() == nil, "GatherCandidates")
+	for n := 1 + verifChoice(1+verifTier()); n > 0; n-- { // let the first cycle get into the network
+		runtime.Gosched()
+	}
+	verifAssert(a.Restart("c08newufrag", "c08newpasswordc08newpassword") == nil, "Restart-returns-nil")
+	gerr := a.GatherCandidates()
+	verifAssert(gerr == nil, "GatherCandidates-after-Restart")
+	w.closeIt()
+	w.net.mu.Lock()
+	opened := len(w.net.socks)
+	w.net.mu.Unlock()
+	verifReach("closed")
+	w.after()
+	w.net.mu.Lock()
+	verifAssert(len(w.net.socks) == opened, "no-cycle-opens-anything-after-Close-returned")
 	w.net.mu.Unlock()
 	verifReach("done")
 }
